@@ -144,7 +144,7 @@ class AmrGeom:
         return self.contents[key]
 
 
-def ray_segments(geom, ph, ttol):
+def ray_segments(geom, ph, ttol, max_steps=20000):
     """the straight line p0 + s d cut at the cell walls, exact rationals: list of segments
     dict(cell, s0, s1, q = position at s0 wrapped into the box, kap, tau0 = optical depth up to s0) and how it ends:
     ("escaped", s, tau, position) through an open face, ("beyond", ...) once the optical depth exceeds target + ttol,
@@ -157,7 +157,7 @@ def ray_segments(geom, ph, ttol):
     s = Fr(0)
     segs = []
     hi_box = [geom.a[k] + geom.s[k] for k in range(3)]
-    for step in range(20000):
+    for step in range(max_steps):
         for k in range(3):
             # a position on a periodic face, heading out of the box, is the same point on the opposite face
             if geom.per[k]:
@@ -233,6 +233,7 @@ def oracle_all(geom, ph, line, tag, amr):
     variants = [[]]
     for k in near:
         variants = [v + [(k, sg)] for v in variants for sg in (-1, 1)]
+    starts = []
     for v in variants:
         q = dict(ph)
         pos = list(ph["pos"])
@@ -244,11 +245,155 @@ def oracle_all(geom, ph, line, tag, amr):
             if pos[k] >= hi:
                 pos[k] = math.nextafter(hi, lo)
         q["pos"] = pos
+        starts.append(q)
         w2 = oracle1(geom, q, line, tag, amr)
         if w2 is None:
             return []
         res.append(w2)
+    if any(ph["dir"][k] == 0.0 for k in near):
+        # the ray lies IN a wall plane: every point of it belongs to two (four) closed cells and the traversal may use
+        # either one in every step; judge the answer against the envelope of all such choices
+        w3 = oracle_plane(geom, ph, starts, line, tag, amr)
+        if w3 is None:
+            return []
+        return [w3]
     return res
+
+
+def oracle_plane(geom, ph, starts, line, tag, amr):
+    r = parse_answer(line or "", tag)
+    if r is None:
+        return ("no_answer", "no answer from the real code")
+    target = Fr(ph["tau"])
+    ttol = Fr(1e-11 * max(1.0, ph["tau"])) if ph["tau"] < 1e290 else Fr(0)
+    dmin = min([abs(x) for x in ph["dir"] if x != 0.0] + [1.0])
+    tol = geom.scale * (TOL + 64 * 2.0 ** -52 / dmin)
+    ftol = Fr(tol)
+    d = [Fr(x) for x in ph["dir"]]
+    dn = math.sqrt(sum(x * x for x in ph["dir"])) if amr else 1.0
+    k = max(range(3), key=lambda j: abs(d[j]))
+    rp = [Fr(x) for x in r["pos"]]
+    for j in range(3):
+        if d[j] == 0 and abs(rp[j] - Fr(ph["pos"][j])) > ftol:
+            return ("end_position", "final position %s left the wall plane the ray lies in (coordinate %d)" % (fmt(rp), j))
+    env = None
+    for cap in (48, 192, 768, 3072):
+        runs = [ray_segments(geom, dict(q, tau=1e300), Fr(0), max_steps=cap) for q in starts]
+        if any(f[0] == "stuck" for _, f in runs):
+            return None
+        s_cov = min(f[1] for _, f in runs)                    # every choice of side is known up to here
+        escaped = all(f[0] == "escaped" for _, f in runs)
+        cuts = sorted(set(x for segs, _ in runs for sg in segs for x in (sg["s0"], sg["s1"]) if x <= s_cov))
+        env = []          # (u, v, kmin, kmax, cells, all_dense, any_dense, tlo(u), thi(u), lmin(u), lmax(u))
+        tlo = thi = lmin = lmax = Fr(0)
+        ptr = [0] * len(runs)
+        for u, v in zip(cuts, cuts[1:]):
+            if v <= u:
+                continue
+            m = (u + v) / 2
+            ks, cs, dense = [], set(), []
+            for ri, (segs, _) in enumerate(runs):
+                i = ptr[ri]
+                while i < len(segs) and segs[i]["s1"] < m:
+                    i += 1
+                ptr[ri] = i
+                if i < len(segs) and segs[i]["s0"] <= m:
+                    ks.append(segs[i]["kap"])
+                    cs.add(segs[i]["cell"])
+                    dense.append(segs[i]["nd"] > 0)
+            if not ks:
+                continue
+            env.append((u, v, min(ks), max(ks), cs, all(dense), any(dense), tlo, thi, lmin, lmax))
+            tlo += min(ks) * (v - u)
+            thi += max(ks) * (v - u)
+            lmin += (v - u) if all(dense) else 0
+            lmax += (v - u) if any(dense) else 0
+        if escaped or tlo > target + ttol:
+            break
+    else:
+        return None              # too long a path for the oracle: no verdict
+    s_exit = s_cov if escaped else None
+
+    def at(sx):
+        """(tlo, thi, lmin, lmax, per-cell touch lengths) at parameter sx"""
+        per_cell = {}
+        res = (Fr(0), Fr(0), Fr(0), Fr(0))
+        for (u, v, kmin, kmax, cs, alld, anyd, t0, t1, l0, l1) in env:
+            if u >= sx:
+                break
+            w_ = min(v, sx) - u
+            res = (t0 + kmin * w_, t1 + kmax * w_, l0 + (w_ if alld else 0), l1 + (w_ if anyd else 0))
+            for c in cs:
+                per_cell[c] = per_cell.get(c, Fr(0)) + w_
+        return res + (per_cell,)
+    absorbed = r["cell"] is not None
+    # candidate parameters of the reported position (one per lap around a periodic box)
+    cands = []
+    for sg in runs[0][0]:
+        if sg["s0"] > s_cov:
+            break
+        for w in ((0, -1, 1) if geom.per[k] else (0,)):
+            sp = sg["s0"] + (rp[k] + w * geom.s[k] - sg["q"][k]) / d[k]
+            if sg["s0"] - ftol <= sp <= sg["s1"] + ftol:
+                pt = [sg["q"][j] + (sp - sg["s0"]) * d[j] for j in range(3)]
+                ok = True
+                for j in range(3):
+                    if d[j] == 0:
+                        continue
+                    diff = abs(pt[j] - rp[j])
+                    if geom.per[j]:
+                        diff = min(diff, abs(diff - geom.s[j]))
+                    ok = ok and diff <= ftol
+                if ok:
+                    cands.append(min(max(sp, sg["s0"]), sg["s1"]))
+    if not cands:
+        return ("end_position", "final position %s is not a point of the straight line (ray in a wall plane)" % fmt(rp))
+    def lengths_ok(sx):
+        t0, t1, l0, l1, per_cell = at(sx)
+        wsig = ph["w"] * ph["sH"]
+        if wsig > 0:
+            tot = 0.0
+            for c, J in r["J"].items():
+                got = (J - ph["j0"]) / wsig
+                tot += got
+                jt = tol + (16 * 2.0 ** -52 * abs(ph["j0"]) / wsig if ph["j0"] != 0 else 0.0)
+                if got > float(per_cell.get(c, Fr(0))) * dn + jt + 1e-12 * abs(got):
+                    return ("credited_lengths", "cell %d is credited %r but the straight line touches it for %r only" % (c, got, float(per_cell.get(c, Fr(0))) * dn))
+            jt = (tol + (16 * 2.0 ** -52 * abs(ph["j0"]) / wsig if ph["j0"] != 0 else 0.0)) * (1 + len(r["J"]))
+            if tot < float(l0) * dn - jt - 1e-12 * tot or tot > float(l1) * dn + jt + 1e-12 * tot:
+                return ("credited_lengths", "credited lengths sum to %r, the distance travelled through cells of non-zero density is between %r and %r" % (tot, float(l0) * dn, float(l1) * dn))
+        return None
+    if absorbed:
+        try:
+            lo, hi = geom.box(r["cell"])
+        except Exception:
+            return ("returned_cell", "returned cell %r is not a cell of the grid" % r["cell"])
+        for j in range(3):
+            x = rp[j]
+            ok = lo[j] - ftol <= x <= hi[j] + ftol
+            if not ok and geom.per[j]:
+                ok = any(lo[j] - ftol <= x + w * geom.s[j] <= hi[j] + ftol for w in (-1, 1))
+            if not ok:
+                return ("returned_cell", "returned cell %d does not contain the final position %s (coordinate %d)" % (r["cell"], fmt(rp), j))
+        first = None
+        for sp in cands:                       # one candidate per lap around a periodic box
+            t0, t1 = at(sp)[:2]
+            if t0 - ttol <= target <= t1 + ttol:
+                why = lengths_ok(sp)
+                if why is None:
+                    return None
+                first = first or why
+        if first is not None:
+            return first
+        t0, t1 = at(cands[0])[:2]
+        return ("end_position", "absorbed at %s: the optical depth up to there is between %.6g and %.6g for every choice of cells along the wall plane, the target is %.6g"
+                % (fmt(rp), float(t0), float(t1), float(target)))
+    if s_exit is None or not any(abs(sp - s_exit) <= ftol for sp in cands):
+        return ("absorbed_reported_escaped", "reported escaped at %s, which is not where the straight line leaves the box (ray in a wall plane)" % fmt(rp))
+    if at(s_exit)[0] > target + ttol:
+        return ("absorbed_reported_escaped", "reported escaped, but the optical depth to the exit is at least %.6g > target %.6g for every choice of cells along the wall plane"
+                % (float(at(s_exit)[0]), float(target)))
+    return lengths_ok(s_exit)
 
 
 def oracle1(geom, ph, line, tag, amr):
